@@ -50,6 +50,9 @@ type apiCase struct {
 	// number of units that can be planned at all
 	UnplanStart int `json:"unplan_start,omitempty"`
 	PlanStart   int `json:"plan_start,omitempty"`
+	// LateTypes: vehicle types (with one vehicle each) created AFTER the per-vehicle-type values of the constraints and
+	// objectives were written — the tables behind those values were sized by the types that existed then
+	LateTypes int `json:"late_types,omitempty"`
 }
 
 func pick(rng *rand.Rand, xs []string) string { return xs[rng.Intn(len(xs))] }
@@ -601,6 +604,9 @@ func genAPICase(rng *rand.Rand) *apiCase {
 			a.LimitOnTypes = append(a.LimitOnTypes, t)
 		}
 	}
+	if rng.Intn(3) == 0 {
+		a.LateTypes = 1 + rng.Intn(2)
+	}
 	a.Solver = pick(rng, []string{"parallel", "single", "single"})
 	if a.Solver == "single" && rng.Intn(3) != 0 {
 		a.UnplanStart = 1 + rng.Intn(8)
@@ -775,6 +781,25 @@ func buildAPIModel(a *apiCase) (nextroute.Model, error) {
 		if _, err := model.Objective().NewTerm(1.0, o); err != nil {
 			return nil, err
 		}
+	}
+	for k := 0; k < a.LateTypes; k++ {
+		vt, err := model.NewVehicleType(nextroute.NewTimeIndependentDurationExpression(travel), service)
+		if err != nil {
+			return nil, err
+		}
+		first, err := model.NewStop(loc(300 + k))
+		if err != nil {
+			return nil, err
+		}
+		last, err := model.NewStop(loc(400 + k))
+		if err != nil {
+			return nil, err
+		}
+		ve, err := model.NewVehicle(vt, start, first, last)
+		if err != nil {
+			return nil, err
+		}
+		ve.SetID(fmt.Sprintf("late%d", k))
 	}
 	return model, nil
 }
